@@ -173,6 +173,18 @@ func (g *shapeGen) override(path string, t types.Type, a string, depth int) []al
 			})
 		}
 		return out
+	case a == "anybool" || a == "anyfloat" || a == "anystring":
+		return []altFn{func(s *State) (Val, string) {
+			switch a {
+			case "anybool":
+				return Iface{Dyn: types.Typ[types.Bool], V: mkVar(path+".bool", SBool)}, path + ":bool"
+			case "anyfloat":
+				v := mkVar(path+".num", SReal)
+				s.assume(float64Facts(v))
+				return Iface{Dyn: types.Typ[types.Float64], V: v}, path + ":float64"
+			}
+			return Iface{Dyn: types.Typ[types.String], V: atom(path + ".str")}, path + ":string"
+		}}
 	case a == "sym":
 		saved := g.over[path]
 		delete(g.over, path)
@@ -256,18 +268,48 @@ func (e *Exec) genShapes(fn *ssa.Function, con *Contract) []*ShapeCase {
 
 func (e *Exec) customShape(path string, t types.Type, a string) ([]altFn, bool) {
 	_ = fmt.Sprint
+	switch a {
+	case "emitter":
+		// a fresh *codegen.Emitter as NewEmitter(80) makes it, at indentation 1
+		p, ok := t.Underlying().(*types.Pointer)
+		if !ok {
+			unsupported("shape emitter on non-pointer %s", path)
+		}
+		return []altFn{func(s *State) (Val, string) {
+			em := zeroVal(p.Elem()).(*Agg)
+			set := func(name string, v Val) {
+				i := structFieldIndex(em.Typ, name)
+				if i < 0 {
+					unsupported("Emitter has no field %s", name)
+				}
+				em = em.with(i, v)
+			}
+			set("maxLineLength", mkInt(80))
+			set("start", tTrue)
+			set("indent", mkInt(1))
+			r := s.alloc(em)
+			delete(s.Fresh, r.Cell)
+			s.CellTypes[r.Cell] = p.Elem()
+			return r, ""
+		}}, true
+	}
 	return nil, false
 }
 
 // float64Facts: true facts about every finite float64 that the real-number
 // model needs: above 2^53 all values are integers, and in [2^53, 2^54) they are
 // even. (The reals admitted remain a superset of the float64 values.)
+var float64FactsOn bool
+
 func float64Facts(v *T) *T {
 	zero := mkReal(ratInt(0))
 	abs := mkIte(mkCmp(">=", v, zero), v, mkArith("-", zero, v))
 	p := func(k int) *T { return mkReal(new(big.Rat).SetInt(pow2(k))) }
 	k := mkVar("intof!"+v.Name, SInt)
 	mult := func(m int64) *T { return mkEq(&T{Op: "mod", Args: []*T{k, mkInt(m)}, Sort: SInt}, mkInt(0)) }
+	if !float64FactsOn {
+		return tTrue
+	}
 	return mkAnd(
 		mkImplies(mkCmp(">=", abs, p(53)), mkEq(toReal(k), v)),
 		mkImplies(mkCmp(">=", abs, p(62)), mult(1024)), // ulp in [2^62, 2^63) is 2^10
